@@ -6,6 +6,7 @@ package eng
 import (
 	"context"
 	"fmt"
+	"io"
 	"net"
 	"regexp"
 	"strings"
@@ -13,6 +14,7 @@ import (
 	"testing"
 	"time"
 
+	"github.com/hashicorp/yamux"
 	"go.temporal.io/server/common/log"
 	"google.golang.org/grpc"
 	"google.golang.org/grpc/codes"
@@ -29,6 +31,7 @@ import (
 	"github.com/temporalio/s2s-proxy/config"
 	"github.com/temporalio/s2s-proxy/logging"
 	"github.com/temporalio/s2s-proxy/proxy"
+	"github.com/temporalio/s2s-proxy/transport/mux"
 )
 
 type beCall struct {
@@ -221,4 +224,85 @@ func invoke(conn *grpc.ClientConn, fullMethod string, req proto.Message, md meta
 	}
 	err := conn.Invoke(ctx, fullMethod, req, resp)
 	return resp, err
+}
+
+// freePort returns a currently free loopback port.
+func freePort(t *testing.T) int {
+	l, err := net.Listen("tcp", "127.0.0.1:0")
+	if err != nil {
+		t.Fatal(err)
+	}
+	defer l.Close()
+	return l.Addr().(*net.TCPAddr).Port
+}
+
+// startProxyPairMux is startProxyPair with the remote side on a mux transport: the proxy listens as
+// mux-server; the harness plays the remote proxy: it dials, runs the yamux client session, serves the
+// Remote backend on it (the proxy's outbound calls arrive there) and calls the proxy's inbound server
+// through it (FromRemote).
+func startProxyPairMux(t *testing.T, cfg config.ClusterConnConfig) (*proxyPair, error) {
+	p := &proxyPair{Local: newBackend(t, "local"), Remote: newBackend(t, "remote")}
+	port := freePort(t)
+	cfg.Local.ConnectionType = config.ConnTypeTCP
+	cfg.Local.TcpClient.ConnectionString = p.Local.Addr()
+	cfg.Local.TcpServer.ConnectionString = "127.0.0.1:0"
+	cfg.Remote.ConnectionType = config.ConnTypeMuxServer
+	cfg.Remote.MuxCount = 1
+	cfg.Remote.MuxAddressInfo.ConnectionString = fmt.Sprintf("127.0.0.1:%d", port)
+	if cfg.Name == "" {
+		cfg.Name = "verifmux"
+	}
+	ctx, cancel := context.WithCancel(context.Background())
+	p.Cancel = cancel
+	cc, err := proxy.NewClusterConnection(ctx, cfg, noopLoggers())
+	if err != nil {
+		cancel()
+		p.Local.Stop()
+		p.Remote.Stop()
+		return nil, err
+	}
+	p.CC = cc
+	cc.Start()
+	m := listenRe.FindAllStringSubmatch(cc.Describe(), -1)
+	if len(m) < 1 {
+		t.Fatalf("cannot find outbound listener address in %q", cc.Describe())
+	}
+	p.OutboundAddr = m[0][1]
+	var raw net.Conn
+	for i := 0; i < 100; i++ {
+		raw, err = net.Dial("tcp", cfg.Remote.MuxAddressInfo.ConnectionString)
+		if err == nil {
+			break
+		}
+		time.Sleep(20 * time.Millisecond)
+	}
+	if err != nil {
+		t.Fatal(err)
+	}
+	ycfg := yamux.DefaultConfig()
+	ycfg.LogOutput = io.Discard
+	sess, err := yamux.Client(raw, ycfg)
+	if err != nil {
+		t.Fatal(err)
+	}
+	go func() { _ = p.Remote.srv.Serve(sess) }()
+	p.FromRemote, err = grpc.NewClient("passthrough:///mux", grpc.WithTransportCredentials(insecure.NewCredentials()),
+		grpc.WithContextDialer(func(context.Context, string) (net.Conn, error) { return sess.Open() }))
+	if err != nil {
+		t.Fatal(err)
+	}
+	p.FromLocal, err = grpc.NewClient(p.OutboundAddr, grpc.WithTransportCredentials(insecure.NewCredentials()))
+	if err != nil {
+		t.Fatal(err)
+	}
+	// wait until the proxy's outbound client has picked up the session
+	for i := 0; i < 200 && !cc.AcceptingOutboundTraffic(); i++ {
+		time.Sleep(10 * time.Millisecond)
+	}
+	return p, nil
+}
+
+func init() {
+	// the manager sleeps this long in Start() "to give the provider time"; the repository's own tests zero it too
+	mux.MuxManagerStartDelay = 0
 }
